@@ -121,6 +121,21 @@ func vC17Join(comps [][]int) string {
 	return strings.Join(parts, "/")
 }
 
+// vC17Signed: the mounted collection as the API server hands it out, every non-empty block with a +A signature.
+func vC17Signed(m []vC10Stream) []vC10Stream {
+	out := make([]vC10Stream, len(m))
+	for i, st := range m {
+		out[i] = vC10Stream{Name: st.Name, Toks: st.Toks}
+		for _, b := range st.Blocks {
+			if b%100 > 0 {
+				b = 10000 + b%10000
+			}
+			out[i].Blocks = append(out[i].Blocks, b)
+		}
+	}
+	return out
+}
+
 func vC17Run(s *vC17Scenario) (ev vC10Ev) {
 	ev = vC10Ev{"ev": "copy", "kind": "ok", "out": []vC10Stream{}, "nb": []vC10Ev{}}
 	w := vC10NewWorld(s.Mount)
@@ -155,7 +170,7 @@ func vC17Run(s *vC17Scenario) (ev vC10Ev) {
 		}
 	}
 	cp := copier{
-		arvClient:     &vC17API{text: w.render(s.Mount, 1)},
+		arvClient:     &vC17API{text: w.render(vC17Signed(s.Mount), false)},
 		hostOutputDir: host,
 		ctrOutputDir:  "/out",
 		mounts:        map[string]arvados.Mount{"/out": {Kind: "tmp"}},
